@@ -482,11 +482,11 @@ func c14Seq(tier, group string, depth int) func(r *vp.InstResult) {
 
 func init() {
 	register(&Check{ID: "C14",
-		Rule: "explicit-state BFS over configuration-building operations executed on the real manager (successor = replay of the shortest path on a fresh manager + one operation), depth 2 (quick) / 3 (thorough); alphabet: WithNodeList over every address list of length 1..2 (3 thorough) from {a, b, c, c'} (c, c' have colliding generated IDs; duplicates included), WithNodeMap over every 1-2 entry map {a,b,c}->{1,2} in both iteration orders, WithNodeIDs over lists from {1, 2, id(a), unknown}, And / Except / WithoutNodes / WithNewNodes over the configurations built so far; states deduplicated by (pool, list of configurations); reference model = Go sets; states = distinct canonical states, transitions = operations executed and compared",
+		Rule: "explicit-state BFS over configuration-building operations executed on the real manager (successor = replay of the shortest path on a fresh manager + one operation), depth 3 (quick) / 4 (thorough, within the time budget); alphabet: WithNodeList over every address list of length 1..2 (3 thorough) from {a, b, c, c'} (c, c' have colliding generated IDs; duplicates included), WithNodeMap over every 1-2 entry map {a,b,c}->{1,2} in both iteration orders, WithNodeIDs over lists from {1, 2, id(a), unknown}, And / Except / WithoutNodes / WithNewNodes over the configurations built so far; states deduplicated by (pool, list of configurations); reference model = Go sets; states = distinct canonical states, transitions = operations executed and compared",
 		Gen: func(tier string) []Instance {
-			depth := 2
+			depth := 3
 			if thorough(tier) {
-				depth = 3
+				depth = 4 // cut by the time budget if necessary (reported as exhaustive:false)
 			}
 			var out []Instance
 			groups := []string{"NodeList/len1", "NodeList/len2", "NodeMap/len1", "NodeMap/len2", "NodeIDs"}
